@@ -2129,16 +2129,27 @@ class Interp:
         self.env[s.name] = VFn("closure", node=s, env=self.env, fc=self.frames[-1].fc)
 
     # ---------------------------------------------------------------- loops
-    def _loopspec(self):
+    def _loopspec(self, node=None):
         fr = self.frames[-1]
         k = fr.loop_ord
         fr.loop_ord += 1
         if fr.fc is None:
             return k, None
-        return k, fr.fc.loops.get(k)
+        spec = fr.fc.loops.get(k)
+        if spec is None and node is not None:
+            # a loop that a refactoring moved (e.g. into a helper executed in line): the function under proof may name
+            # its loop contracts by a fragment of the loop's test / iterable as well as by ordinal
+            root = self.frames[0].fc
+            by_text = getattr(root, "loops_by_text", None) or {}
+            if by_text and (fr.fc is root or getattr(fr.fc, "auto_inlined", False)):
+                text = ast.unparse(node.test if isinstance(node, ast.While) else node.iter)
+                for frag, sp in by_text.items():
+                    if frag in text:
+                        return k, sp
+        return k, spec
 
     def s_While(self, s):
-        k, spec = self._loopspec()
+        k, spec = self._loopspec(s)
         if spec is None or spec.unroll:
             bound = (spec.unroll if spec and spec.unroll is not True else 12)
             for _ in range(bound):
@@ -2155,7 +2166,7 @@ class Interp:
         self.inv_loop(s, k, spec, cond=lambda: self.truth(self.eval(s.test)), pre_body=None)
 
     def s_For(self, s):
-        k, spec = self._loopspec()
+        k, spec = self._loopspec(s)
         it = self.force(self.eval(s.iter))
         # range loops with symbolic bounds / abstract sequences need invariants; concrete ones unroll
         if it.tag == "fn" and it.kind == "range":
